@@ -452,7 +452,7 @@ func (g *gen) genEnumDecl(d []*string, malformed bool) []string {
 	if r.P(1, 3) {
 		return nil // derive values from the data
 	}
-	if len(g.declPool) > 0 && r.P(1, 4) {
+	if len(g.declPool) > 0 && (r.P(1, 4) || (g.opt["enumheavy"] != "" && r.P(1, 2))) {
 		// the very same slice that declared an earlier column (callers keep one declaration and use it for many frames);
 		// when the data does not fit it the construction fails, which must leave the earlier columns alone
 		return g.declPool[r.Intn(len(g.declPool))]
@@ -1045,6 +1045,16 @@ func (g *gen) genLeaf(f *hframe, bad bool) clause {
 		ac, ok := argCol(want)
 		if !ok {
 			ac = col
+		}
+		if col.typ == "e" {
+			// prefer ANOTHER enum column with the same value list: only then does an ordering comparison between two enum
+			// columns mean something (and which operand is which matters)
+			for _, c2 := range f.colsOf("e") {
+				if c2.name != col.name && len(c2.vals) > 1 && strings.Join(c2.vals, "\x00") == strings.Join(col.vals, "\x00") && r.P(3, 4) {
+					ac = c2
+					break
+				}
+			}
 		}
 		if col.typ == "b" {
 			setCmp(r.Pick([]string{"=", "!="}))
@@ -3037,9 +3047,50 @@ func (g *gen) witnessEnumDup() {
 	g.finish(2, func() qframe.QFrame { return up.qf.Filter(qframe.Filter{Column: "e", Comparator: "=", Arg: "A"}) })
 }
 
+// witnessEnumCols: two enum columns with the same declared value list compared with each other by every ordering
+// comparator, in both directions (which operand is the filtered column matters), on a fresh and on a sorted frame.
+func (g *gen) witnessEnumCols() {
+	lo, mid, hi := "lo", "mid", "hi"
+	p := []*string{&lo, &mid, &hi, &mid, nil, &hi}
+	q := []*string{&mid, &mid, &lo, &hi, &hi, nil}
+	decl := []string{"lo", "mid", "hi"}
+	cellToks := func(c []*string) []string {
+		t := []string{"S", tx.Int(len(c))}
+		for _, x := range c {
+			t = append(t, tx.CStr(x))
+		}
+		return t
+	}
+	ntoks := append([]string{"N", "0", "2", tx.HexS("p")}, cellToks(p)...)
+	ntoks = append(append(ntoks, tx.HexS("q")), cellToks(q)...)
+	ntoks = append(ntoks, "O", "0", "E", "2")
+	for _, n := range []string{"p", "q"} {
+		ntoks = append(ntoks, tx.HexS(n), "3", tx.HexS("lo"), tx.HexS("mid"), tx.HexS("hi"))
+	}
+	g.w.Line(ntoks...)
+	base := g.finish(0, func() qframe.QFrame {
+		return qframe.New(map[string]types.DataSlice{"p": p, "q": q}, newqf.Enums(map[string][]string{"p": decl, "q": decl}))
+	})
+	fid := 1
+	for _, cmp := range []string{"<", "<=", ">", ">=", "=", "!="} {
+		for _, pair := range [][2]string{{"p", "q"}, {"q", "p"}} {
+			cmp, pair := cmp, pair
+			g.w.Line("O", tx.Int(fid), "0", "filter", "F", "0", tx.HexS(pair[0]), "s"+tx.HexS(cmp), "col", tx.HexS(pair[1]))
+			g.finish(fid, func() qframe.QFrame {
+				return base.qf.Filter(qframe.Filter{Column: pair[0], Comparator: cmp, Arg: types.ColumnName(pair[1])})
+			})
+			fid++
+		}
+	}
+}
+
 func (g *gen) witnesses() {
 	if g.opt["wit"] == "enumdup" {
 		g.witnessEnumDup()
+		return
+	}
+	if g.opt["wit"] == "enumcols" {
+		g.witnessEnumCols()
 		return
 	}
 	// KF-C06-fapply-fill: FilteredApply(x > 2, {Fn: 7, DstCol: "y"}) and a ColumnName copy on x = [1,2,3,4]
